@@ -41,7 +41,12 @@ PROFILES = {
     # callback tables: several callables of every kind on one task, re-added, removed, then every way of ending
     "cbtable": {"create": 6, "addcb": 50, "rmcb": 20, "wait": 0, "cancel": 4, "cancelself": 4, "sleep": 10, "unique": 2,
                 "exec": 0, "raise": 4, "call": 0},
+    # (round 4) the callback table of a task changes while that task is already running its done-callbacks: programs
+    # are built by Gen.cbexit_prog, the weights only serve the optional controller root
+    "cbexit":  {"create": 0, "addcb": 1, "rmcb": 1, "wait": 1, "cancel": 1, "cancelself": 0, "sleep": 1, "unique": 0,
+                "exec": 0, "raise": 0, "call": 0},
 }
+MUTATOR_KINDS = ("def", "closure", "method")      # callables that can call task.* themselves (pyscript code)
 
 
 class Gen:
@@ -131,6 +136,107 @@ class Gen:
             p.insert(0, ["unique", "n1", False])
             p.append(["sleep", 2])
         return p
+
+    def cbexit_prog(self, me, idx, kind):
+        """Round 4 family: 3-5 distinct callables are registered on one task (the caller itself or a child it has just
+        created); one or two of them - pyscript code: def / closure / bound method of a pyscript class instance -
+        change the callback table of the task that is ending (task.current_task()) WHILE they run as its
+        done-callbacks: a one-shot callback that takes itself off, one that removes another callback (one that has
+        already run / has not run yet), one that chains a new callback, one that registers a registered function again
+        with other arguments, one that removes a function that is not registered.  Every position of the changing
+        callback in the table (first / middle / last), every way of ending (return, raise, task.cancel(), cancelled
+        by its creator, killed by a rival claimant), a waiter that looks at the outcome (creator or a second root),
+        and - variant "ext" - another task that changes the table while a done-callback of the ending task is
+        suspended.  Returns (program, events of further roots)."""
+        r = self.r
+        p, more = [], []
+        tgt, who = me, "self"
+        mode = ["child", "self", "ext", "child", "self"][idx % 5]
+        if kind == "svc" and self.masked and mode != "child":
+            mode = "child"                # mask of svc-addcb-keyerror: no done-callback on a service-started task
+        if mode == "child":
+            ch = self.free.pop(0)
+            body = [["sleep", r.choice([1, 2])]]
+            if not self.masked and r.random() < 0.2:
+                body.append(["raise"])
+            p.append(["create", ch, body])
+            tgt, who = ch, ch
+        kinds = sorted(tl.FN_KINDS)
+        if self.masked:
+            kinds.remove("method")        # mask of method-cb-per-lookup
+        pool = [f for f in tl.ALL_FNS if tl.KIND_OF[f] in kinds]
+        cand = [f for f in pool if tl.KIND_OF[f] in MUTATOR_KINDS]
+        muts = r.sample(cand, r.choice([1, 1, 2]))
+        fns = muts + r.sample([f for f in pool if f not in muts], r.randint(2, 5 - len(muts)))
+        r.shuffle(fns)
+        if mode == "ext" or idx % 3 == 0: # the changing callback at every position: first / last / anywhere
+            fns.remove(muts[0])
+            fns.insert(0, muts[0])
+        elif idx % 3 == 1:
+            fns.remove(muts[0])
+            fns.append(muts[0])
+        spare = [f for f in pool if f not in fns]
+        ext = []
+        for n, f in enumerate(fns):
+            a = self.cb_args(tgt, f)
+            if mode == "ext":
+                # the first callback sleeps 2 s; a second root changes the table of the ending task meanwhile
+                a[2], a[3] = ("sleep", 2) if n == 0 else ("ret", 0)
+                self.sleepy.add(tgt)
+            elif f in muts:
+                ms = []
+                for _ in range(r.choice([1, 1, 2])):
+                    k = r.choice(["rmself", "rmself", "rmother", "rmother", "addnew", "addnew", "readd", "rmnone"])
+                    if k == "rmself":
+                        ms.append(["rm", "self", f, 0, "ret", 0])
+                    elif k == "rmother":
+                        ms.append(["rm", "self", r.choice([g for g in fns if g != f]), 0, "ret", 0])
+                    elif k == "addnew" and spare:
+                        ms.append(["add", "self", spare.pop(r.randrange(len(spare))), r.choice([1, 2]), "ret", 0])
+                    elif k == "readd":
+                        ms.append(["add", "self", r.choice(fns), r.choice([1, 2]), "ret", 0])
+                    elif spare:
+                        ms.append(["rm", "self", r.choice(spare), 0, "ret", 0])
+                a[2] = ["mut", ms, a[2]]
+            p.append(["addcb", who] + a)
+        if mode == "ext":
+            for _ in range(r.choice([1, 2])):
+                k = r.choice(["rmother", "rmother", "addnew", "addnew", "readd", "rmrun"])
+                if k == "rmother":
+                    ext.append(["rmcb", me, r.choice(fns[1:])])
+                elif k == "rmrun":
+                    ext.append(["rmcb", me, fns[0]])
+                elif k == "addnew" and spare:
+                    ext.append(["addcb", me, spare.pop(r.randrange(len(spare))), r.choice([1, 2]), "ret", 0])
+                else:
+                    ext.append(["addcb", me, r.choice(fns[1:]), r.choice([1, 2]), "ret", 0])
+            more.append({"at": 1, "do": "spawn", "tag": "t5", "how": r.choice(["ev", "svc"]), "ctx": "c1",
+                         "prog": ext + [["wait", me]]})
+            return p, more
+        if mode == "child":
+            k = r.random()
+            if k < 0.5:
+                p.append(["wait", tgt])
+            elif k < 0.8 and not (self.masked and tgt in self.sleepy):
+                self.targets.add(tgt)
+                p += [["sleep", 1 if p[0][2][0][1] == 2 else 0], ["cancel", tgt], ["wait", tgt]]
+            return p, more
+        k = r.random()
+        if k < 0.35:
+            p.append(["sleep", 2])
+            more.append({"at": 1, "do": "spawn", "tag": "t5", "how": "ev", "ctx": "c1", "prog": [["wait", me]]})
+        elif k < 0.5 and not self.masked:
+            p.append(["raise"])
+        elif k < 0.65 and not (self.masked and me in self.sleepy):
+            self.targets.add(me)
+            p.append(["cancel", "self"])
+        elif k < 0.8 and not (self.masked and me in self.sleepy):
+            self.claims |= {me, "t5"}
+            p.insert(0, ["unique", "n1", False])
+            p.append(["sleep", 2])
+            more.append({"at": 1, "do": "spawn", "tag": "t5", "how": "ev", "ctx": "c1",
+                         "prog": [["unique", "n1", False], ["wait", me]]})
+        return p, more
 
     def prog(self, me, depth, kind):
         r = self.r
@@ -240,9 +346,15 @@ def gen_scenario(r, sid, masked, profile="graph", idx=0):
     legacy = r.random() < 0.5
     how = r.choice(["ev", "ev", "st", "svc"])
     kd = "svc" if how == "svc" else "trig"
-    events = [{"at": 0, "do": "spawn", "tag": "t1", "how": how, "ctx": "c1",
-               "prog": g.cbtable_prog("t1", idx, kd) if profile == "cbtable" else g.prog("t1", 0, kd)}]
-    if profile == "cbtable" and "t1" in g.claims and not (masked and g.sleepy):
+    if profile == "cbexit":
+        prog, more = g.cbexit_prog("t1", idx, kd)
+        events = [{"at": 0, "do": "spawn", "tag": "t1", "how": how, "ctx": "c1", "prog": prog}] + more
+    else:
+        events = [{"at": 0, "do": "spawn", "tag": "t1", "how": how, "ctx": "c1",
+                   "prog": g.cbtable_prog("t1", idx, kd) if profile == "cbtable" else g.prog("t1", 0, kd)}]
+    if profile == "cbexit":
+        pass
+    elif profile == "cbtable" and "t1" in g.claims and not (masked and g.sleepy):
         # the owner of the name is killed by a rival claimant while it sleeps
         g.claims.add("t5")
         events.append({"at": 1, "do": "spawn", "tag": "t5", "how": "ev", "ctx": "c1", "prog": [["unique", "n1", False]]})
@@ -328,6 +440,9 @@ def variants(scn, case, r, cap):
                         for op in p:
                             if op[0] == "addcb" and op[2] == idx and op[4] == "sleep":
                                 op[4] = "sleepraise"
+                                hit = True
+                            elif op[0] == "addcb" and op[2] == idx and isinstance(op[4], list) and op[4][2] == "sleep":
+                                op[4][2] = "sleepraise"
                                 hit = True
                     if not hit or scn["masked"]:
                         continue
